@@ -128,7 +128,7 @@ func (w *World) header(body string, extra string) string {
 		_, rs := w.resolveType(fd.pkg, fd.Result)
 		fmt.Fprintf(&sb, "(declare-fun %s (%s) %s)\n", q(n), strings.Join(ps, " "), sortText(rs))
 	}
-	sb.WriteString("(declare-fun strcat! (Str Str) Str)\n(declare-fun strlen! (Str) Int)\n(declare-fun typetag (Int) Int)\n")
+	sb.WriteString("(declare-fun strcat! (Str Str) Str)\n(declare-fun strlen! (Str) Int)\n(declare-fun typetag (Int) Int)\n(assert (forall ((s!l Str)) (! (>= (strlen! s!l) 0) :pattern ((strlen! s!l)) :qid strlen_nonneg)))\n(assert (= (strlen! str.empty) 0))\n")
 	sb.WriteString("(declare-fun idx (Int Int) Int)\n(assert (forall ((o Int) (i Int)) (! (= (idx o i) (+ o i)) :pattern ((idx o i)) :qid idxdef)))\n")
 	var cs []string
 	for ks := range w.cardSorts {
